@@ -48,7 +48,10 @@ def budget(tier):
 
 
 GEN_ITEMS = ["lab", "call", "set", "usevar", "ifused", "ifnused", "ifdef", "macro", "listing", "page", "title",
-             "macexp", "newpage", "message", "warning", "section", "shared", "rept", "data", "equfwd"]
+             "macexp", "newpage", "message", "warning", "section", "shared", "rept", "data", "equfwd",
+             # statements whose evaluation goes through library calls that leave errno set (number conversion at the
+             # edge of the double range, probing for files that do not exist): report writers check errno
+             "float", "ifexist", "reptexist", "strfn"]
 
 
 def render_gen(items):
@@ -101,6 +104,16 @@ def render_gen(items):
             L += ["\trept %d" % (a % 3 + 1), "\tdb var&15", "\tendm"]
         elif k == "data":
             L.append("\tdb %d,%d,%d" % (a & 255, (a >> 3) & 255, i & 255))
+        elif k == "float":
+            L.append("\t%s %s" % (["dd", "dq", "dq", "dd"][a % 4],
+                                   ["1e-310", "4.94e-324,2e-320", "1.0e308,1e-308", "1e-45,1.5"][a % 4]))
+        elif k == "ifexist":
+            L += ["mx%d\tmacro" % i, "\tifexist nofile%d.inc" % (a % 3), "\tinclude nofile%d.inc" % (a % 3), "\tendif",
+                  "\tdb %d" % (a & 255), "\tnop", "\tendm", "\tmx%d" % i]
+        elif k == "reptexist":
+            L += ["\trept %d" % (a % 2 + 1), "\tifnexist nofile.inc", "\tdb %d" % (a & 255), "\tendif", "\tnop", "\tendm"]
+        elif k == "strfn":
+            L.append("\tdb strlen(\"abc\"),val(\"%d\"),int(sqrt(%d.0))" % (a % 200, a % 90 + 1))
         elif k == "equfwd" and nl:
             L.append("e%d\tequ lb%d+%d" % (i, a % nl, a % 5))
             L.append("\tdw e%d" % i)
